@@ -316,6 +316,22 @@ impl<'a> Model<'a> {
         self.release_call(call);
         if let Some(si) = si {
             let deleted = self.subs[si].del_i.map(|d| d < idx).unwrap_or(false);
+            if !deleted {
+                // the stream ended (rejected control message, ...) while its subscription lives
+                // on: messages that became available in the same instant may have been handed
+                // to it without ever reaching the client - like a consumer that went away
+                let now = self.now;
+                let d = self.subs[si].d;
+                let s = &mut self.subs[si];
+                s.tainted_until = s.tainted_until.max(now + d * SEC + SLACK + 1_000_000);
+                s.ever_tainted = true;
+                s.consumer_abort_since_qp = true;
+                for (_, st) in s.msgs.iter_mut() {
+                    if matches!(st, Ms::Queued { .. }) {
+                        *st = Ms::MaybeLeased;
+                    }
+                }
+            }
             if deleted {
                 if code != Some(5) && !(ctrl && matches!(code, Some(c) if c != 0)) && !(invalid && code == Some(3)) {
                     self.v(
